@@ -400,3 +400,7 @@ EXPLANATION = EXPLANATION + " " + (
 # session 5 (round 10)
 EXPLANATION = EXPLANATION + " " + (
     'COPY/whole-buffer (shared with C14): deflateCopy copies the whole symbol buffer (push_lit relies on zero distance bytes).')
+
+# session 5 (round 11)
+EXPLANATION = EXPLANATION + " " + (
+    'The pins of deflateSetDictionary (round 11, shared with C13/C16): block_start and insert are cleared before a window-sized dictionary is loaded.')
